@@ -34,7 +34,7 @@ func RunTwin(c *core.Ctx) {
 	F := gen.Pick(r, cand)
 	G := gen.Pick(r, cand)
 	sch := r.SchemaWith(map[string]gen.Profile{F: gen.Pick(r, hitProfiles), G: gen.Pick(r, hitProfiles), "x": gen.Pick(r, hitProfiles), "xy": gen.Pick(r, hitProfiles), "n.a": gen.Pick(r, hitProfiles)})
-	if p, ok := sch.Prof["n.b"]; ok && p.Kind == gen.PBigInt {
+	if p, ok := sch.Prof["n.b"]; ok && (p.Kind == gen.PBigInt || p.Kind == gen.PTimeFar) {
 		sch.Prof["n.b"] = gen.Profile{Kind: gen.PSmallInt} // twin T4 indexes the object n: keep it inside the key domain
 	}
 	unrelated := []string{}
